@@ -1907,7 +1907,8 @@ inductive ExtBackKind
   | omegaMissing
   /-- `cache_diagonalization=False` although the diagonalization is needed -/
   | diagConflict
-  /-- an identifier mapping misses an identifier of its pulse (`KeyError`) -/
+  /-- an identifier mapping misses an identifier of its pulse (`ValueError` since the repair of
+  F50; a `KeyError` before) -/
   | missingKey
   /-- two control operators of the mapped pulses get the same identifier -/
   | duplicateControl
@@ -1923,7 +1924,6 @@ deriving DecidableEq, Repr
 
 def ExtBackKind.cls : ExtBackKind → Err
   | .additional k => k.cls
-  | .missingKey => .keyError
   | _ => .valueError
 
 def ExtBackViolates (x : ExtendSpec) (N : Nat) : ExtBackKind → Prop
@@ -2190,24 +2190,22 @@ theorem extendFront_ok {x : ExtendSpec} {N : Nat} (h : extendFront x = .ok N) : 
       rw [← h]; simp [extendN, hN]
 
 /-- every exception of the second part raised before the additional noise Hamiltonian is looked at
-is a `ValueError`, except the `KeyError` of an incomplete mapping -/
+is a `ValueError` -/
 theorem extendBack_of_not_unique (x : ExtendSpec) (N : Nat)
     (hd : ¬ (mappedCIds x).Nodup ∨ ¬ (mappedNIds x).Nodup) :
-    extendBack x N = .error .valueError ∨
-      (extendBack x N = .error .keyError ∧ ∃ p ∈ x.pulses, ¬ p.MappingTotal) := by
+    extendBack x N = .error .valueError := by
   unfold extendBack
   split
-  · exact .inl rfl
+  · rfl
   split
-  · exact .inl rfl
+  · rfl
   split
-  · rename_i c3
-    exact .inr ⟨rfl, (any_keyMissing_iff x).mp c3⟩
+  · rfl
   split
-  · exact .inl rfl
+  · rfl
   rename_i c4
   split
-  · exact .inl rfl
+  · rfl
   rename_i c5
   exfalso
   rcases hd with hd | hd
@@ -2222,14 +2220,14 @@ theorem extendBack_of_not_unique (x : ExtendSpec) (N : Nat)
 
 theorem extendBack_of_missing_key (x : ExtendSpec) (N : Nat)
     (hk : ∃ p ∈ x.pulses, ¬ p.MappingTotal) :
-    extendBack x N = .error .valueError ∨ extendBack x N = .error .keyError := by
+    extendBack x N = .error .valueError := by
   unfold extendBack
   split
-  · exact .inl rfl
+  · rfl
   split
-  · exact .inl rfl
+  · rfl
   split
-  · exact .inr rfl
+  · rfl
   rename_i c3
   exact absurd ((any_keyMissing_iff x).mpr hk) c3
 
@@ -2246,7 +2244,7 @@ instance (mapping : Option RemapDef.Dict) (ids : List String) :
   unfold RemapMappingTotal; cases mapping <;> infer_instance
 
 /-- the identifiers of the remapped pulse: the values of the mapping (`[]` when it misses a key;
-`remap` has raised `KeyError` then), the identifiers themselves without a mapping -/
+`remap` has raised then), the identifiers themselves without a mapping -/
 def remapMapped (mapping : Option RemapDef.Dict) (ids : List String) : List String :=
   (remapIds mapping ids).getD []
 
@@ -2303,12 +2301,12 @@ theorem remapMappingTotal_append (mapping : Option RemapDef.Dict) (a b : List St
       fun h s hs => hs.elim (h.1 s) (h.2 s)⟩
 
 /-- the identifier part of `remap`: accepted iff the mapping covers all identifiers and is
-injective on the control and on the noise identifiers; `KeyError` for a missing key, otherwise
-`ValueError` for identifiers that coincide after mapping -/
+injective on the control and on the noise identifiers; `ValueError` for a missing key (F50:
+formerly `KeyError`) and for identifiers that coincide after mapping -/
 theorem remapIdChecks_spec (cIds nIds : List String) (mapping : Option RemapDef.Dict) :
     (RemapMappingTotal mapping (cIds ++ nIds) ∧ (remapMapped mapping cIds).Nodup ∧
       (remapMapped mapping nIds).Nodup ∧ remapIdChecks cIds nIds mapping = .ok ()) ∨
-    (¬ RemapMappingTotal mapping (cIds ++ nIds) ∧ remapIdChecks cIds nIds mapping = .error .keyError) ∨
+    (¬ RemapMappingTotal mapping (cIds ++ nIds) ∧ remapIdChecks cIds nIds mapping = .error .valueError) ∨
     (RemapMappingTotal mapping (cIds ++ nIds) ∧
       ¬ ((remapMapped mapping cIds).Nodup ∧ (remapMapped mapping nIds).Nodup) ∧
       remapIdChecks cIds nIds mapping = .error .valueError) := by
